@@ -312,6 +312,27 @@ def t7(F, rep):
     other = [strip_generics(callee_def(t)) for bb, t in b.calls() if re.search(r"Vec::(extend|extend_from_slice|insert|truncate|resize|append|drain|set_len)$", strip_generics(callee_def(t)))]
     # the pushed byte is plain_text[start + i]: look at the index call itself (nested descriptors are abbreviated)
     idxc = [(bb, t) for bb, t in b.calls() if re.search(r"Index(Mut)?>?::index(_mut)?$", strip_generics(callee_def(t))) and re.match("^%s$" % PT, flow.describe(b, t["args"][0]))]
+    # run-length form: a distance-1 reference repeats the last byte, so `resize(len + n, plain_text[len - 1])` behind
+    # `dist == 1` is the same copy
+    LAST = r"Sub\(len\(%s\), (K1|(cast\()?arg<u32>#0\)?)\)(\.0)?" % PT
+    resizes = [(bb, t) for bb, t in b.calls() if strip_generics(callee_def(t)).endswith("Vec::resize") and re.match("^%s$" % PT, flow.describe(b, t["args"][0]))]
+    ok_resize = True
+    for bb, t in resizes:
+        shape = (re.match(r"^Add\(len\(%s\), (cast\()?arg<u32>#1\)?\)(\.0)?$" % PT, flow.describe(b, t["args"][1])) is not None
+                 and re.match(r"^index\(%s, %s\)$" % (PT, LAST), flow.describe(b, t["args"][2])) is not None)
+        guarded = False
+        for sb in sorted(b.normal_blocks()):
+            st = b.term(sb)
+            if st["k"] == "switch" and len(st["targets"]) == 1:
+                g = flow.describe(b, st["d"])
+                if re.match(r"^Eq\((cast\()?arg<u32>#0\)?, K1\)$", g) and b.edge_dominates(sb, st["otherwise"], bb):
+                    guarded = True
+                if re.match(r"^Ne\((cast\()?arg<u32>#0\)?, K1\)$", g) and b.edge_dominates(sb, st["targets"][0][1], bb):
+                    guarded = True
+        ok_resize = ok_resize and shape and guarded
+    if resizes and ok_resize:
+        other = [o for o in other if not o.endswith("Vec::resize")]
+        idxc = [(bb, t) for bb, t in idxc if re.match("^%s$" % LAST, flow.describe(b, t["args"][1])) is None]
     ok_idx = bool(idxc) and all(re.match(r"^Add\(%s, (cast\()?%s\)?\)(\.0)?$" % (START, IDX), flow.describe(b, t["args"][1])) is not None for bb, t in idxc)
     ok_push = bool(pushes) and ok_idx and all(flow.describe(b, t["args"][1]).startswith("index(") for bb, t in pushes)
     ok_within = True
@@ -330,7 +351,7 @@ def t7(F, rep):
         ok_within = ok_within and shape and guarded
     good = (ok_push if pushes else bool(within)) and ok_within and not other
     rep.add("T7", "window-copy-from-len-minus-dist", good, where,
-            "pushes: %s; block copies: %s; other mutations: %s" % ([flow.describe(b, t["args"][1])[:150] for bb, t in pushes], [flow.describe(b, t["args"][1])[:150] for bb, t in within], other))
+            "pushes: %s; block copies: %s; run fills: %s; other mutations: %s" % ([flow.describe(b, t["args"][1])[:150] for bb, t in pushes], [flow.describe(b, t["args"][1])[:150] for bb, t in within], [flow.describe(b, t["args"][2])[:150] for bb, t in resizes], other))
 
 
 def t5b(F, rep):
